@@ -65,7 +65,7 @@ def value_spec(draw, kinds=("value", "async-value")):
 @st.composite
 def raise_spec(draw, kinds=("raise", "async-raise")):
     kind = draw(st.sampled_from(kinds))
-    excs = ["ValueError", "OSError", "KeyError", "RuntimeError", "UnicodeError", "Custom", "LookupError"]
+    excs = ["ValueError", "OSError", "KeyError", "RuntimeError", "UnicodeError", "Custom", "LookupError", "NoArgs", "TimeoutNoArgs", "NonTextArgs"]
     if kind == "async-raise":
         excs = excs + ["CancelledError"]
     spec = {
